@@ -191,4 +191,28 @@ theorem map_ofLe_chunks (w : Nat) (hw : 0 < w) (xs : List Nat) (h : ∀ x ∈ xs
   intro x hx
   exact ofLeBytes_leBytes w x (h x hx)
 
+/-! ### per-item transposition -/
+
+/-- the per-item split is a pure relabelling: entry `i` of component array `k` is component `k`
+    of element `i` (index-map form) … -/
+theorem itemColumns_get {α : Type} [Inhabited α] (isz : Nat) (rows : List (List α)) (k i : Nat)
+    (hk : k < isz) (hi : i < rows.length) :
+    ((itemColumns isz rows).getD k []).getD i default = (rows.getD i []).getD k default := by
+  unfold itemColumns
+  simp [List.getD_eq_getElem?_getD, hk, hi]
+
+/-- … and reassembling the elements from the component arrays gives back the array -/
+theorem itemRows_itemColumns {α : Type} [Inhabited α] (isz : Nat) (rows : List (List α))
+    (h : ∀ r ∈ rows, r.length = isz) : itemRows rows.length (itemColumns isz rows) = rows := by
+  unfold itemRows itemColumns
+  apply List.ext_getElem
+  · simp
+  · intro i h1 h2
+    simp only [List.getElem_map, List.getElem_range, List.map_map]
+    have hr : rows[i].length = isz := h _ (List.getElem_mem h2)
+    apply List.ext_getElem
+    · simp [hr]
+    · intro k hk1 hk2
+      simp [List.getD_eq_getElem?_getD, h2, hk2]
+
 end PMV.Pickle
